@@ -661,6 +661,40 @@ def main(argv):
                     rest = [l.strip() for l in str(t).splitlines() if l.strip() != str(cpp_nodes[0]).strip()]
                     if rest != [l.strip() for l in str(base_tree).splitlines()]:
                         fail("cpp#rest_of_tree_unchanged", dict(program=name, position=pos, directive=d, source=src), dict(printed=str(t)[:400]))
+        # fixed form (set explicitly, non-strict and strict): directives after statements, at the top and in a row
+        from fparser.common.readfortran import FortranStringReader as _FSR14
+        from fparser.common.sourceinfo import FortranFormat as _FF14
+        from fparser.two.parser import ParserFactory as _PF14
+        fbody = ["      program fx", "      integer i", "      i = 1", "      if (i .gt. 0) then", "        i = 2", "      end if", "      end program fx"]
+        fdirs = ["#if !defined(X)", "#if !X", "#ifdef X", "#endif", "#define N 3", "#include \"f.h\"", "#else", "#elif !defined(Y) && Z", "#undef N"]
+
+        def fparse(lines, strict, **kw):
+            rd = _FSR14("\n".join(lines) + "\n", **kw)
+            rd.set_format(_FF14(False, strict))
+            return _PF14().create(std="f2003")(rd)
+        for strict in (False, True):
+            try:
+                fbase = str(fparse(fbody, strict))
+            except BaseException as e:  # noqa
+                fail("cpp#fixed_form_program_parses", dict(strict=strict), "%s: %s" % (type(e).__name__, str(e)[:100]))
+                continue
+            for d in fdirs:
+                for pos in range(0, len(fbody) + 1):
+                    for kw in (dict(), dict(ignore_comments=False)):
+                        cases += 1
+                        flines = fbody[:pos] + [d] + fbody[pos:]
+                        try:
+                            t = fparse(flines, strict, **kw)
+                        except BaseException as e:  # noqa
+                            fail("cpp#directive_does_not_disturb_parse", dict(form="fixed", strict=strict, position=pos, directive=d, options=kw, source="\n".join(flines)), "%s: %s" % (type(e).__name__, str(e)[:120]))
+                            continue
+                        cpp_nodes = [n for n in walk(t) if type(n).__module__ == C99.__name__ and type(n).__name__.endswith("_Stmt")]
+                        if len(cpp_nodes) != 1 or not same_payload(str(cpp_nodes[0]), d):
+                            fail("cpp#one_node_per_directive", dict(form="fixed", strict=strict, position=pos, directive=d, options=kw, source="\n".join(flines)), dict(nodes=[str(n) for n in cpp_nodes]))
+                            continue
+                        rest = [l.strip() for l in str(t).splitlines() if l.strip() != str(cpp_nodes[0]).strip()]
+                        if rest != [l.strip() for l in fbase.splitlines()]:
+                            fail("cpp#rest_of_tree_unchanged", dict(form="fixed", strict=strict, position=pos, directive=d, options=kw, source="\n".join(flines)), dict(printed=str(t)[:300]))
         # comments retained: directives placed among comments (before, between, after) leave every other node where it was
         def signature(tree):
             out = []
